@@ -189,6 +189,11 @@ func buildB(root, id string, eb *engineB) (string, error) {
 		return "", err
 	}
 	args := []string{"-out", ov}
+	if os.Getenv("VERIF_COVDIR") != "" {
+		// development aid (tools/coverage.sh): which blocks of the bus
+		// packages do the scenarios of this property execute at all
+		args = append(args, "-cov")
+	}
 	if len(eb.fine) > 0 {
 		args = append(args, "-fine", strings.Join(eb.fine, ","))
 	}
@@ -200,6 +205,11 @@ func buildB(root, id string, eb *engineB) (string, error) {
 	}
 	runner := filepath.Join(work, "vrunner")
 	out.Reset()
+	if cd := os.Getenv("VERIF_COVDIR"); cd != "" {
+		if b, err := os.ReadFile(filepath.Join(ov, "cov-sites.txt")); err == nil {
+			os.WriteFile(filepath.Join(cd, "sites.txt"), b, 0o644)
+		}
+	}
 	if err := run(root, &out, "go", "build", "-overlay", filepath.Join(ov, "overlay.json"), "-o", runner, "./cmd/vrunner"); err != nil {
 		return "", fmt.Errorf("overlay build: %v\n%s", err, out.String())
 	}
